@@ -268,6 +268,8 @@ def run(ck: core.Check):
                     ok = m["res"].get("err") == got[1]
                 if ok and "names" in m:
                     ok = m["names"] == names_after
+                if m.get("wf") is not True and "error" not in m:
+                    ck.broken("correspondence", "C03 generated program violates the model's WF hypothesis (wfb = false)", str(lf.to_objs(prog))[:600])
                 if not ok:
                     mism += 1
                     if mism <= 3:
